@@ -81,7 +81,10 @@ def malformations(kind, case, rng):
     if kind == 'BinaryCarver':
         y3 = y.copy(); y3.iloc[pos] = 2; mk('binary_target_with_three_classes', y=y3)
         mk('binary_target_constant', y=pd.Series([1] * len(y)))
-    if kind == 'ContinuousCarver': mk('continuous_carver_with_binary_target', y=pd.Series([i % 2 for i in range(len(y))]))
+    if kind == 'ContinuousCarver':
+        mk('continuous_carver_with_binary_target', y=pd.Series([i % 2 for i in range(len(y))]))
+        lo_, hi_ = rng.choice([(1, 2), (-1, 1), (0, 100), (3.5, 7.25), (0.0, 1.0)])          # two classes, whatever their coding
+        mk('continuous_carver_with_binary_target', y=pd.Series([[lo_, hi_][i % 2] for i in range(len(y))]))
     if kind == 'MulticlassCarver': mk('multiclass_carver_with_binary_target', y=pd.Series([['a', 'b'][i % 2] for i in range(len(y))]))
     if kind in ('BinaryCarver', 'ContinuousCarver', 'MulticlassCarver', 'Discretizer') and case['quantitative'] and (case['qualitative'] or case['ordinal']):
         q0 = case['quantitative'][0]
@@ -166,6 +169,16 @@ def one(arg):
         after = state_of(fitted, case['X'])
         diff = [k for k in before if before[k] != after[k]]
         rec('fit#frame.rejected_call_leaves_fitted_state_unchanged', not diff, 'after the second fit: %r changed' % (diff,), dict(malformation='second_fit'))
+        if not diff:
+            # ... and with ANOTHER valid sample: missing values in every feature column (also where the first sample had none), every other row
+            X2 = case['X'].iloc[::2].copy()
+            for j, f in enumerate(ob.features_of(case)):
+                col = X2[f].astype(object) if X2[f].dtype != float and str(X2[f].dtype) != 'float32' else X2[f].copy()
+                col.iloc[j % len(col)] = np.nan; col.iloc[(j + 3) % len(col)] = np.nan; X2[f] = col
+            r = outcome(lambda: do_fit(fitted, kind, X2, case['y'].iloc[::2], None, None))
+            rec('fit#raises.AssertionError.second_fit_of_fitted_object', r[0] == 'reject', 'second fit with another sample: %s' % r[0], dict(malformation='second_fit_other_sample'))
+            after = state_of(fitted, case['X']); diff = [k for k in before if before[k] != after[k]]
+            rec('fit#frame.rejected_call_leaves_fitted_state_unchanged', not diff, 'after the second fit with another sample (new missing values): %r changed' % (diff,), dict(malformation='second_fit_other_sample'))
     return recs
 
 
